@@ -13,7 +13,7 @@ def run(ctx):
             "agreement_model's hypotheses about the environment: every delivered message satisfies F3.Instance.MsgValid (its vote "
             "and the votes aggregated by its justification exist; shape per phase) — the shape half is re-checked by the driver "
             "on every message the real validator let through (msgStructB, proved sound: msgValidB_sound), the existence half is "
-            "signature verification (C05) under unforgeability; a run reports no internal error (C07 oracle)"],
+            "signature verification (C05) under unforgeability; that no run reports an internal error or panic is C07.no_internal_error_or_panic (agreement_model_unconditional needs no such hypothesis)"],
         assumptions=["signature unforgeability (hypothesis: a vote of an honest member exists only if it emitted it)",
                      "faulty members hold < 1/3 of scaled power",
                      "mid-instance restarts: agreement_model_restarts composes with C12 (the wire of a restarting member carries one value per slot and only requested votes: PublishedOK, discharged from C12.wire_no_equivocation / record_before_publish)"],
